@@ -57,8 +57,7 @@ def fingerprint(ctx, corpus, full=True):
         return tuple((k_, repr(getattr(hh_, k_, None))) for k_ in ("default_rounds", "min_desired_rounds", "max_desired_rounds", "vary_rounds", "default_salt_size", "default_ident",
                                                                    "default_variant", "block_size", "parallelism", "version", "truncate_error", "default_algs", "default_marker"))
     hs_ = fp_item(lambda: ctx.schemes())
-    if isinstance(hs_, (list, tuple)):
-        fp["handler_settings"] = [(s_, cat_, fp_item(lambda: settings_of(s_, cat_))) for s_ in hs_ for cat_ in (None, "admin")]
+    fp["handler_settings"] = [(s_, cat_, fp_item(lambda: settings_of(s_, cat_))) for s_ in hs_ for cat_ in (None, "admin")] if isinstance(hs_, (list, tuple)) else hs_
     if full:
         for cat in (None, "admin"):
             def cost():
@@ -312,7 +311,7 @@ def _roundtrip_one(run, idx):
                 continue
             run.case((sh, label), dict(config=kw, operation=label))
             run.count(f"roundtrip:{label}")
-            diff = [k for k in base if base[k] != fp[k]]
+            diff = [k for k in base if base[k] != fp.get(k)]
             if diff:
                 det = {k: (str(base[k])[:150], str(fp[k])[:150]) for k in diff[:3]}
                 mech = f"C10|roundtrip|{label}|{'+'.join(sorted(d.split(':')[0] for d in diff))[:60]}"
@@ -500,7 +499,7 @@ def failed_changes(run, start, count):
                 run.count(f"failed_change:{op}")
                 run.count(f"fault_kind:{kind}")
                 run.count("faults")
-                diff = [k for k in base if base[k] != after[k]]
+                diff = [k for k in base if base[k] != after.get(k)]
                 if diff:
                     det = {k: (str(base[k])[:120], str(after[k])[:120]) for k in diff[:3]}
                     run.violation(f"C10|failed-change-leaks|{op}|{'+'.join(sorted(set(d.split(':')[0] for d in diff)))[:50]}",
